@@ -305,6 +305,8 @@ pub fn c08_c09(run: &Run, out: &str, well_formed: bool) -> Vec<Viol> {
                     }
                 } else {
                     // indentation of a line
+                    let safety_net = i > 0 && fin.fmt[i][1] == 0 && matches!(fin.kinds[i - 1].as_str(), "Comment(InlineLine)" | "Comment(IndividualLine)");
+                    let site2 = if safety_net { " [site: the line break after a line comment was supplied by the reconstructor's safety net]" } else { "" };
                     let ok = if run.cfg.use_tabs {
                         tail.chars().all(|c| c == '\t')
                     } else {
@@ -312,7 +314,7 @@ pub fn c08_c09(run: &Run, out: &str, well_formed: bool) -> Vec<Viol> {
                             && (if run.cfg.tab_width == 0 { tail.is_empty() } else { tail.len() % run.cfg.tab_width as usize == 0 })
                     };
                     if !ok {
-                        res.push(Viol { prop: "C08", clause: "indent_units", detail: format!("token {i} {kind}: indentation {tail:?}") });
+                        res.push(Viol { prop: "C08", clause: "indent_units", detail: format!("token {i} {kind}: indentation {tail:?}{site2}") });
                     }
                     if kind == "Eof" && !tail.is_empty() {
                         res.push(Viol { prop: "C08", clause: "trailing_blanks", detail: format!("last line consists of blanks {tail:?}") });
@@ -596,7 +598,9 @@ pub fn c02_token_equal(kind: &str, a: &str, b: &str, fms: bool) -> bool {
     }
     if kind == "CompilerDirective" || kind.starts_with("ConditionalDirective(") {
         if let Some((s, e)) = directive_name_range(a) {
-            return a.len() == b.len() && a[..s] == b[..s] && a[e..] == b[e..] && a[s..e].to_ascii_uppercase() == b[s..e];
+            // within the name (or switch list) a character is kept or upper-cased
+            return a.len() == b.len() && a[..s] == b[..s] && a[e..] == b[e..]
+                && a[s..e].bytes().zip(b[s..e].bytes()).all(|(x, y)| x == y || x.to_ascii_uppercase() == y);
         }
         return false;
     }
@@ -613,23 +617,42 @@ pub fn c02_token_equal(kind: &str, a: &str, b: &str, fms: bool) -> bool {
 }
 
 pub fn c02(text: &str, tin: &[Tok], out: &str, tout: &[Tok], fms: bool) -> Option<Viol> {
+    c02_all(text, tin, out, tout, fms).into_iter().next()
+}
+
+/// all violations (at most a handful); a comment that follows a lone CR is reported with its site
+pub fn c02_all(text: &str, tin: &[Tok], out: &str, tout: &[Tok], fms: bool) -> Vec<Viol> {
+    let mut res = vec![];
     if tin.len() != tout.len() {
         let k = tin.iter().zip(tout).position(|(a, b)| a.kind != b.kind).unwrap_or(tin.len().min(tout.len()));
-        return v("C02", "token_count", format!("{} tokens scanned in the input, {} in the output; first kind difference at token {k}: {:?} {:?} vs {:?} {:?}",
-            tin.len(), tout.len(), tin.get(k).map(|t| &t.kind), tin.get(k).map(|t| t.text(text)), tout.get(k).map(|t| &t.kind), tout.get(k).map(|t| t.text(out))));
+        res.extend(v("C02", "token_count", format!("{} tokens scanned in the input, {} in the output; first kind difference at token {k}: {:?} {:?} vs {:?} {:?}",
+            tin.len(), tout.len(), tin.get(k).map(|t| &t.kind), tin.get(k).map(|t| t.text(text)), tout.get(k).map(|t| &t.kind), tout.get(k).map(|t| t.text(out)))));
+        return res;
     }
     for (i, (a, b)) in tin.iter().zip(tout).enumerate() {
+        if res.len() >= 5 {
+            break;
+        }
         if a.kind != b.kind {
-            return v("C02", "kind", format!("token {i}: {} {:?} -> {} {:?}", a.kind, a.text(text), b.kind, b.text(out)));
+            let ws = a.ws(text);
+            let after_lone_cr = ws.contains('\r') && !ws.contains('\n');
+            let inline_to_individual = (a.kind == "Comment(InlineLine)" && b.kind == "Comment(IndividualLine)") || (a.kind == "Comment(InlineBlock)" && b.kind == "Comment(IndividualBlock)");
+            let site = if after_lone_cr && inline_to_individual { " [site: comment after a lone CR]" } else { "" };
+            res.extend(v("C02", "kind", format!("token {i}: {} {:?} -> {} {:?}{site}", a.kind, a.text(text), b.kind, b.text(out))));
+            if site.is_empty() {
+                break;
+            }
+            continue;
         }
         if a.kind == "Eof" {
             continue;
         }
         if !c02_token_equal(&a.kind, a.text(text), b.text(out), fms) {
-            return v("C02", "text", format!("token {i} {}: {:?} -> {:?}", a.kind, a.text(text), b.text(out)));
+            res.extend(v("C02", "text", format!("token {i} {}: {:?} -> {:?}", a.kind, a.text(text), b.text(out))));
+            break;
         }
     }
-    None
+    res
 }
 
 // ---------------------------------------------------------------- C05: structure marks
@@ -765,6 +788,17 @@ pub fn c12(text: &str, tin: &[Tok], out: &str, tout: &[Tok], cfg: &Cfg, verbatim
             }
             continue;
         }
+        // named deviation of the implementation (MLString.tla: ImplQualifies): a blank interior line must be a prefix of the
+        // closing indentation, otherwise the literal is left as it is
+        let site = {
+            let lines = ml_lines(tx);
+            let base = leading_blanks(lines[lines.len() - 1]);
+            if lines[1..lines.len() - 1].iter().any(|l| !l.starts_with(base) && !base.starts_with(l)) {
+                " [site: a blank interior line is not a prefix of the closing indentation]"
+            } else {
+                ""
+            }
+        };
         match ml_value(ty) {
             Some(v) if Some(&v) == ml_value(tx).as_ref() => {}
             other => {
@@ -786,14 +820,14 @@ pub fn c12(text: &str, tin: &[Tok], out: &str, tout: &[Tok], cfg: &Cfg, verbatim
                     l.is_empty() || l.starts_with(li.indent.as_str())
                 };
                 if !ok {
-                    res.push(Viol { prop: "C12", clause: "indentation", detail: format!("literal {k}: line {j} {:?} is not indented like the opening quotes' line ({:?})", l, li.indent) });
+                    res.push(Viol { prop: "C12", clause: "indentation", detail: format!("literal {k}: line {j} {:?} is not indented like the opening quotes' line ({:?}){site}", l, li.indent) });
                     break;
                 }
             }
         }
         let body_wo_nl = ty.replace(nl, "");
         if body_wo_nl.contains('\n') || body_wo_nl.contains('\r') {
-            res.push(Viol { prop: "C12", clause: "terminators", detail: format!("literal {k}: interior terminators are not all the configured one: {:?}", ty) });
+            res.push(Viol { prop: "C12", clause: "terminators", detail: format!("literal {k}: interior terminators are not all the configured one: {:?}{site}", ty) });
         }
     }
     (res, n)
